@@ -112,7 +112,71 @@ func httpCont(store *server.Store, dsm *server.DsManager, op server.VerifOp, tok
 	return
 }
 
+// POST /query {continuations, limit} from the FIRST page on, with tokens the driver builds itself (ToRelatedFrom + the
+// handler's own token encoder) pinned to the instant the op names - e.g. exactly a commit time
+func httpAt(store *server.Store, dsm *server.DsManager, op server.VerifOp, tokens map[string]int64) (oo server.VerifOpObs) {
+	at := int64(1) << 62
+	if tokens["@hasat"] == 1 {
+		at = tokens["@at"]
+	}
+	froms, err := store.ToRelatedFrom(op.Starts, op.Pred, op.Inverse, op.Datasets, at)
+	if err != nil {
+		oo.Err = err.Error()
+		return
+	}
+	oo.RPages = [][]server.VerifRel{}
+	if froms == nil {
+		oo.RPages = append(oo.RPages, []server.VerifRel{}) // unknown start point: nothing
+		return
+	}
+	conts, err := web.VerifC03EncodeCont(froms)
+	if err != nil {
+		oo.Err = err.Error()
+		return
+	}
+	for n := 0; len(conts) > 0; n++ {
+		if n >= 40 {
+			oo.Err = "paging does not terminate"
+			return
+		}
+		st, resp := httpPost(store, dsm, map[string]interface{}{"continuations": conts, "limit": op.Limit})
+		page, next, e := httpPage(st, resp)
+		if e != "" {
+			oo.Err = e
+			return
+		}
+		oo.RPages = append(oo.RPages, page)
+		conts = next
+	}
+	return
+}
+
+// a paged query inside a job transform, interrupted after its first page ...
+func jsStart(store *server.Store, dsm *server.DsManager, op server.VerifOp, tokens map[string]int64) (oo server.VerifOpObs) {
+	pages, err := jobs.VerifC03JobSessionStart(store, dsm, op.ID, op.Starts, op.Pred, op.Inverse, op.Datasets, op.Limit)
+	if err != nil {
+		oo.Err = err.Error()
+		return
+	}
+	oo.RPages = pages
+	return
+}
+
+// ... and continued later with the tokens added to the same parameter object
+func jsCont(store *server.Store, dsm *server.DsManager, op server.VerifOp, tokens map[string]int64) (oo server.VerifOpObs) {
+	pages, err := jobs.VerifC03JobSessionCont(op.ID)
+	if err != nil {
+		oo.Err = err.Error()
+		return
+	}
+	oo.RPages = pages
+	return
+}
+
 func main() {
+	server.VerifExtOps["httpat"] = httpAt
+	server.VerifExtOps["jsq"] = jsStart
+	server.VerifExtOps["jscont"] = jsCont
 	server.VerifExtOps["jsquery"] = jsQuery
 	server.VerifExtOps["httpq"] = httpQ
 	server.VerifExtOps["httpcont"] = httpCont
